@@ -191,6 +191,7 @@ pub fn verif_dir() -> std::path::PathBuf {
 
 thread_local! {
     static PANIC_MSG: std::cell::RefCell<Option<String>> = const { std::cell::RefCell::new(None) };
+    static GUARD_DEPTH: std::cell::Cell<u32> = const { std::cell::Cell::new(0) };
 }
 
 pub fn install_panic_hook() {
@@ -203,13 +204,20 @@ pub fn install_panic_hook() {
         } else {
             "<non-string panic>".into()
         };
+        if GUARD_DEPTH.with(|d| d.get()) == 0 {
+            // not inside a guarded call into the code under test: this is a harness error and must be seen
+            eprintln!("harness panic at {loc}: {msg}");
+        }
         PANIC_MSG.with(|m| *m.borrow_mut() = Some(format!("{loc}: {msg}")));
     }));
 }
 
 /// Runs `f`, turning a panic into `Err("file:line: message")`.
 pub fn no_panic<T>(f: impl FnOnce() -> T) -> Result<T, String> {
-    match catch_unwind(AssertUnwindSafe(f)) {
+    GUARD_DEPTH.with(|d| d.set(d.get() + 1));
+    let r = catch_unwind(AssertUnwindSafe(f));
+    GUARD_DEPTH.with(|d| d.set(d.get() - 1));
+    match r {
         Ok(v) => Ok(v),
         Err(_) => Err(PANIC_MSG.with(|m| m.borrow_mut().take()).unwrap_or_else(|| "panic".into())),
     }
